@@ -359,6 +359,9 @@ type replayFile struct {
 
 func saveReplay(prop, sub string, shard int, v any, msg string) string {
 	dir := filepath.Join(Root, "replays", "new")
+	if d := os.Getenv("VERIF_NEWDIR"); d != "" {
+		dir = d
+	}
 	os.MkdirAll(dir, 0o755)
 	p := filepath.Join(dir, fmt.Sprintf("%s-%s-s%d-%d.json", prop, sub, seedEnv, shard))
 	b, _ := json.MarshalIndent(replayFile{Property: prop, Sub: sub, Case: mustJSON(v), Message: trunc(msg, 4000)}, "", " ")
